@@ -450,7 +450,15 @@ func (sa *Application) timeoutPlaceholderProcessing() {
 		// all allocations are placeholders release them all
 		var toRelease, pendingRelease []*Allocation
 		preempted := 0
+		// the real allocations of replacements that are in flight: the shim has been told that their placeholder
+		// is replaced, they stay linked to the placeholder until the shim confirms that
+		var inflight []*Allocation
 		for _, alloc := range sa.allocations {
+			// skip over the placeholders that are already marked for release, they will be replaced soon
+			if alloc.IsReleased() && alloc.GetRelease() != nil {
+				inflight = append(inflight, alloc.GetRelease())
+				continue
+			}
 			err := alloc.SetReleased(true)
 			if err != nil {
 				log.Log(log.SchedApplication).Warn("allocation is already preempted, so skipping release process",
@@ -483,6 +491,10 @@ func (sa *Application) timeoutPlaceholderProcessing() {
 			zap.Int("preempted", preempted),
 			zap.String("gang scheduling style", sa.gangSchedulingStyle))
 		sa.removeAsksInternal("", si.EventRecord_REQUEST_TIMEOUT)
+		// the asks of the replacements in flight are allocated: keep them until the replacement is confirmed
+		for _, ask := range inflight {
+			sa.requests[ask.GetAllocationKey()] = ask
+		}
 		// trigger the release of the allocated placeholders: accounting updates when the release is done
 		sa.notifyRMAllocationReleased(toRelease, si.TerminationType_TIMEOUT, "releasing allocated placeholders on placeholder timeout")
 		// trigger the release of the pending placeholders: accounting has been done
